@@ -70,15 +70,15 @@ def install(ex):
         c = simp(c) if is_sym(c) else c
         rec = ex.stats.asserts.setdefault(label, [0, 0, 0])
         rec[0] += 1
-        if st.nbranch > 0 or is_sym(c):
-            rec[2] += 1
         if c is True:
-            rec[1] += 1
+            rec[1] += 1     # the asserted term simplified to true syntactically: discharged, but trivial
             return None
+        rec[2] += 1         # non-trivial: needs the solver (or is refuted outright)
         bad = True if c is False else z3.Not(c)
         r = ex.check(st, bad) if bad is not True else "sat"
         if r == "unsat":
             rec[1] += 1
+            ex.cross_check(st, bad, label)
             st.pc.append(c)
             return None
         if r == "unknown":
